@@ -248,7 +248,7 @@ theorem loop_count (now : Int) (spec document nowV : Val) (multi : Bool) (T : Li
         rw [ha] at h
         dsimp only at h
         have hs0 : LInv now T rest (c.setDoc key new) := hset new
-        by_cases hc : (if c.isOD key then pyEqOrdered new v else pyEq new v) = true
+        by_cases hc : pyEq new v = true
         · rw [if_pos hc] at h
           -- the unique indexes are checked on the "unchanged" branch as well
           cases hu : ensureUniques now (c.setDoc key new) new with
